@@ -30,7 +30,7 @@ func init() {
 	tours["restart"] = []func(*core.Result, *core.RNG) (*sim, error){restartTour, restartFaultTour}
 	tours["equip"] = []func(*core.Result, *core.RNG) (*sim, error){equipTour, keyReuseTour, keyReuseBanTour, keyReuseAfterBanTour}
 	tours["register"] = []func(*core.Result, *core.RNG) (*sim, error){registerTour, registerRaceTour, damagedKeyTour, zeroKeyTour, archiveBeforeRegistrationTour}
-	tours["hostile"] = []func(*core.Result, *core.RNG) (*sim, error){hostileTour, shutdownTour}
+	tours["hostile"] = []func(*core.Result, *core.RNG) (*sim, error){hostileTour, shutdownTour, manyWeeksTour}
 }
 
 func started(res *core.Result, r *core.RNG, name string, now0 uint32, http bool, caps ...uint64) (*sim, error) {
